@@ -111,6 +111,21 @@ def defer_code_machines():
                      ("process", 5, 4, val, []), ("process", 6, 5, val, [])])
     return [("defer_codes", md, opss)]
 
+def defer_ortho_reject_machines():
+    """deferral at the root next to an orthogonal region: Waiting defers e4 and leaves on e6; the other region has a
+    guarded row on e6.  Whatever that guard answers (handled alone, or handled together with a guard rejection in the
+    other region) the stored occurrences of e4 must be re-offered right after e6, in arrival order, before the next
+    event (all valuations; two stored occurrences)"""
+    root = machine([state(zone=0, defers=[4]), state(zone=0), state(zone=1), state(zone=1)], [0, 2],
+                   [row(10, 0, 6, 1, act="call"), row(11, 1, 4, "none", act="call"), row(12, 1, 5, 0, act="call"),
+                    row(13, 2, 6, 3, guard=True, act="call"), row(14, 3, 6, 2, guard=True, act="call")])
+    md = mdef(root, 3)
+    opss = []
+    for val in all_valuations(guards_of(md), 8):
+        opss.append([("start", [], []), ("process", 4, 1, val, []), ("process", 4, 2, val, []), ("process", 6, 3, val, []),
+                     ("process", 4, 4, val, []), ("process", 5, 5, val, []), ("process", 4, 6, val, []), ("process", 6, 7, val, [])])
+    return [("defer_ortho_reject", md, opss)]
+
 def defer_action_machines():
     """row-level deferral (the Defer functor action) inside a submachine and at the root: the deferring rows leave from
     Busy; Ready handles the events; one occurrence per event type plus two of one type"""
@@ -444,7 +459,7 @@ def rowkind_machines():
 def main():
     os.makedirs(os.path.join(VERIF, "corpus"), exist_ok=True)
     n = 0
-    for item in fwd_machines() + ortho_machines() + defer_code_machines() + defer_action_machines() + base_event_machines() + block_machines() + pseudo_machines() + fork_machines() + explicit_completion_machines() + flag_machines() + throw_machines() + throw_in_pool_machines() + throw_nested_machines() + copy_history_machines() + save_pseudo_machines() + rowkind_machines():
+    for item in fwd_machines() + ortho_machines() + defer_code_machines() + defer_ortho_reject_machines() + defer_action_machines() + base_event_machines() + block_machines() + pseudo_machines() + fork_machines() + explicit_completion_machines() + flag_machines() + throw_machines() + throw_in_pool_machines() + throw_nested_machines() + copy_history_machines() + save_pseudo_machines() + rowkind_machines():
         name, md, opss = item[:3]
         save(name, md, opss, cfgs=item[3] if len(item) > 3 else None)
         n += 1
